@@ -16,8 +16,8 @@ import TcheranVerif.Proofs.LegalPos
   verdict is the rules' (`clock ≥ 100` and the side to move has a legal move).
 * `insufficient_*` — the material rule as a function of piece counts: true for bare kings and for
   king + one minor v king; false whenever a pawn, rook or queen is present or more than two minor
-  pieces remain (the counts are linked to the board by `Props.C02`'s view consistency; that link is
-  stated as the hypothesis `n = 2 + minors + heavy`).
+  pieces remain; `material_agrees` links the counts to the board (`count_partition`, view consistency):
+  on every consistent board with two kings the engine's verdict is what C11 demands wherever it speaks.
 Search-internal null moves push a history entry without advancing the clock, so the window is then
 one entry short per null move: soundness only, not claimed (C11 quantifies over game histories).
 -/
@@ -195,6 +195,144 @@ theorem isInsufficient_eq (g : Game) :
   simp only
   rw [count_or_pos]
 
+theorem filter_length_split {α} (l : List α) (t p q : α → Bool) (h : ∀ x, t x = (p x || q x))
+    (hd : ∀ x, ¬ (p x = true ∧ q x = true)) :
+    (l.filter t).length = (l.filter p).length + (l.filter q).length := by
+  induction l with
+  | nil => rfl
+  | cons x xs ih =>
+    simp only [List.filter_cons]
+    rw [h x]
+    cases hp : p x <;> cases hq : q x
+    · simp [ih]
+    · simp [ih]; omega
+    · simp [ih]; omega
+    · exact absurd ⟨hp, hq⟩ (hd x)
+
+/-- on a consistent board a bitboard of one kind counts the squares holding that kind -/
+theorem count_kind (b : Board) (hc : b.Consistent) (k : PieceKind) :
+    BB.count (b.byKind k) = Rules.count b.squares (fun pc => pc.kind == k) := by
+  unfold BB.count BB.toList Rules.count
+  congr 1
+  apply List.filter_congr
+  intro s _
+  rw [hc.1 k s]
+  show _ = (b.pieceAt s).any _
+  cases b.pieceAt s with
+  | none => simp
+  | some pc =>
+    simp only [Option.map_some, Option.some.injEq, Option.any_some]
+    cases hk : (pc.kind == k) <;> simp_all
+
+theorem count_occ (b : Board) (hc : b.Consistent) :
+    BB.count b.occupancy = Rules.count b.squares (fun _ => true) := by
+  unfold BB.count BB.toList Rules.count
+  congr 1
+  apply List.filter_congr
+  intro s _
+  rw [mem_occupancy b hc s]
+  unfold occOf
+  cases Rules.at' b.squares s <;> rfl
+
+/-- every man is a king, a knight, a bishop or a pawn / rook / queen -/
+theorem count_partition (sq : Rules.RBoard) :
+    Rules.count sq (fun _ => true) =
+      Rules.count sq (fun pc => pc.kind == .king) + Rules.count sq (fun pc => pc.kind == .knight) +
+      Rules.count sq (fun pc => pc.kind == .bishop) +
+      Rules.count sq (fun pc => pc.kind == .pawn || pc.kind == .rook || pc.kind == .queen) := by
+  unfold Rules.count
+  let P (f : Piece → Bool) : Sq → Bool := fun s => (Rules.at' sq s).any f
+  have e1 := filter_length_split (List.finRange 64) (P fun _ => true) (P fun pc => pc.kind == .king)
+    (P fun pc => pc.kind != .king)
+    (by intro x; simp only [P]; cases Rules.at' sq x with
+        | none => rfl
+        | some pc => obtain ⟨k, pl⟩ := pc; cases k <;> rfl)
+    (by intro x; simp only [P]; cases Rules.at' sq x with
+        | none => simp
+        | some pc => obtain ⟨k, pl⟩ := pc; cases k <;> simp)
+  have e2 := filter_length_split (List.finRange 64) (P fun pc => pc.kind != .king) (P fun pc => pc.kind == .knight)
+    (P fun pc => pc.kind != .king && pc.kind != .knight)
+    (by intro x; simp only [P]; cases Rules.at' sq x with
+        | none => rfl
+        | some pc => obtain ⟨k, pl⟩ := pc; cases k <;> rfl)
+    (by intro x; simp only [P]; cases Rules.at' sq x with
+        | none => simp
+        | some pc => obtain ⟨k, pl⟩ := pc; cases k <;> simp)
+  have e3 := filter_length_split (List.finRange 64) (P fun pc => pc.kind != .king && pc.kind != .knight)
+    (P fun pc => pc.kind == .bishop) (P fun pc => pc.kind == .pawn || pc.kind == .rook || pc.kind == .queen)
+    (by intro x; simp only [P]; cases Rules.at' sq x with
+        | none => rfl
+        | some pc => obtain ⟨k, pl⟩ := pc; cases k <;> rfl)
+    (by intro x; simp only [P]; cases Rules.at' sq x with
+        | none => simp
+        | some pc => obtain ⟨k, pl⟩ := pc; cases k <;> simp)
+  simp only [P] at e1 e2 e3
+  omega
+
+/-- **material_agrees**: on a consistent board with exactly two kings, wherever C11 demands a verdict of
+the material rule, the engine gives it -/
+theorem material_agrees (g : Game) (hc : g.board.Consistent)
+    (hk : Rules.count g.board.squares (fun pc => pc.kind == .king) = 2) (b : Bool)
+    (hd : Rules.insufficientDemand (Rules.ofGame g) = some b) : g.isInsufficient = b := by
+  rw [isInsufficient_eq]
+  have hn := count_occ g.board hc
+  have hp := count_partition g.board.squares
+  have hkn : BB.count g.board.knights = Rules.count g.board.squares (fun pc => pc.kind == .knight) :=
+    count_kind g.board hc .knight
+  have hbi : BB.count g.board.bishops = Rules.count g.board.squares (fun pc => pc.kind == .bishop) :=
+    count_kind g.board hc .bishop
+  -- minors, as the demand counts them
+  have hmin : Rules.count g.board.squares (fun pc => pc.kind == .knight || pc.kind == .bishop) =
+      Rules.count g.board.squares (fun pc => pc.kind == .knight) +
+      Rules.count g.board.squares (fun pc => pc.kind == .bishop) := by
+    unfold Rules.count
+    apply filter_length_split
+    · intro x
+      cases Rules.at' g.board.squares x with
+      | none => rfl
+      | some pc => obtain ⟨k, pl⟩ := pc; cases k <;> rfl
+    · intro x
+      cases Rules.at' g.board.squares x with
+      | none => simp
+      | some pc => obtain ⟨k, pl⟩ := pc; cases k <;> simp
+  have hd2 : (if (decide (Rules.count g.board.squares (fun pc => pc.kind == .pawn || pc.kind == .rook || pc.kind == .queen) > 0) ||
+        decide (Rules.count g.board.squares (fun pc => pc.kind == .knight || pc.kind == .bishop) > 2)) = true then some false
+      else if Rules.count g.board.squares (fun pc => pc.kind == .knight || pc.kind == .bishop) ≤ 1 then some true
+      else none) = some b := hd
+  rw [hmin] at hd2
+  rw [hn, hp, hk, hkn, hbi]
+  generalize Rules.count g.board.squares (fun pc => pc.kind == .pawn || pc.kind == .rook || pc.kind == .queen) = heavy at hd2 ⊢
+  generalize Rules.count g.board.squares (fun pc => pc.kind == .knight) = nk at hd2 ⊢
+  generalize Rules.count g.board.squares (fun pc => pc.kind == .bishop) = nb at hd2 ⊢
+  split at hd2
+  · rename_i h1
+    have := Option.some.inj hd2
+    subst this
+    simp only [Bool.or_eq_true, decide_eq_true_eq] at h1
+    rcases h1 with h1 | h1
+    · exact sufficient_with_heavy (2 + nk + nb + heavy) nk nb heavy _ _ _ _ rfl h1
+    · exact sufficient_three_minors (2 + nk + nb + heavy) nk nb heavy _ _ _ _ rfl h1
+  · rename_i h1
+    simp only [Bool.or_eq_true, decide_eq_true_eq, not_or, Nat.not_lt] at h1
+    split at hd2
+    · rename_i h2
+      have := Option.some.inj hd2
+      subst this
+      have hh : heavy = 0 := by omega
+      subst hh
+      by_cases h0 : nk + nb = 0
+      · have : nk = 0 ∧ nb = 0 := by omega
+        obtain ⟨a, c⟩ := this
+        subst a; subst c
+        exact insufficient_bare_kings _ _ _ _
+      · have h1' : nk + nb = 1 := by omega
+        have := insufficient_one_minor nk nb (BB.count (g.board.bishops &&& BB.lightSquares))
+          (BB.count (g.board.occFor g.player) == 2) ((g.board.kings &&& BB.corners) != 0#64)
+          ((g.board.kings &&& BB.edges) != 0#64) h1'
+        have e : 2 + nk + nb + 0 = 3 := by omega
+        rw [e]; exact this
+    · cases hd2
+
 /-- non-vacuity of `repeated_exact`'s shape: a two-entry history with the matching key first -/
 example : ({ player := .white, board := Board.empty, rights := Rights.none, ep := none, halfmove := 2, plies := 2,
              zobrist := 7#64, inc := ⟨0, 0⟩,
@@ -213,5 +351,10 @@ end Tcheran.Props.C11
 #print axioms Tcheran.Props.C11.insufficient_one_minor
 #print axioms Tcheran.Props.C11.sufficient_with_heavy
 #print axioms Tcheran.Props.C11.sufficient_three_minors
+#print axioms Tcheran.Props.C11.filter_length_split
+#print axioms Tcheran.Props.C11.count_kind
+#print axioms Tcheran.Props.C11.count_occ
+#print axioms Tcheran.Props.C11.count_partition
+#print axioms Tcheran.Props.C11.material_agrees
 #print axioms Tcheran.Props.C11.count_or_pos
 #print axioms Tcheran.Props.C11.isInsufficient_eq
